@@ -4,6 +4,7 @@ import (
 	"time"
 
 	"github.com/osrg/gobgp/v4/internal/pkg/table"
+	"github.com/osrg/gobgp/v4/pkg/apiutil"
 	"github.com/osrg/gobgp/v4/pkg/config/oc"
 	"github.com/osrg/gobgp/v4/pkg/packet/bgp"
 )
@@ -194,4 +195,35 @@ func VH_c02_best_stream() {
 	if len(best) == 0 {
 		vReach("empty")
 	}
+}
+
+// C02 (API routes next to peer routes): a prefix announced by a peer and also injected through the
+// API; deleting the API route by the identifier AddPath returned removes exactly that route - the
+// peer's un-withdrawn route stays in the Loc-RIB and its Adj-RIB-In, in either order of arrival.
+func VH_c02_api_delete() {
+	fams := []bgp.Family{bgp.RF_IPv4_UC}
+	s := vServer(65000, fams)
+	a := vEstablished(s, vNeighbor(2, 65001, 65000, fams), fams)
+	go s.Serve()
+	prefix := vPrefix4(10, 1, 0, 0, 16)
+	nh, _ := bgp.NewPathAttributeNextHop(vAddr4(10, 0, 0, 9))
+	apiPath := &apiutil.Path{Family: bgp.RF_IPv4_UC, Nlri: prefix, Attrs: []bgp.PathAttributeInterface{bgp.NewPathAttributeOrigin(0), nh, bgp.NewPathAttributeMultiExitDisc(vU32("med"))}}
+	peerFirst := vBool("peer_route_first")
+	if peerFirst {
+		vRecv(s, a, vUpdate4(prefix, false, []uint32{65001}, vAddr4(10, 0, 0, 2)), 10)
+	}
+	resps, err := s.AddPath(apiutil.AddPathRequest{Paths: []*apiutil.Path{apiPath}})
+	vAssert(err == nil && len(resps) == 1 && resps[0].Error == nil, "a well-formed route is refused by AddPath")
+	if err != nil || len(resps) != 1 {
+		return
+	}
+	if !peerFirst {
+		vRecv(s, a, vUpdate4(prefix, false, []uint32{65001}, vAddr4(10, 0, 0, 2)), 10)
+	}
+	vAssert(len(s.globalRib.GetPathList(table.GLOBAL_RIB_NAME, 0, fams)) == 2, "the Loc-RIB does not hold one route per source")
+	vAssert(s.DeletePath(apiutil.DeletePathRequest{UUIDs: []uuidT{resps[0].UUID}}) == nil, "a route cannot be deleted by the identifier AddPath returned")
+	loc := s.globalRib.GetPathList(table.GLOBAL_RIB_NAME, 0, fams)
+	vAssert(len(loc) == 1 && !loc[0].IsLocal() && loc[0].GetSource().Address == vAddr4(10, 0, 0, 2), "deleting an API route removed (or left) the wrong route: the peer's un-withdrawn route must be the only one left")
+	vAssert(a.adjRibIn.Count(fams) == 1 && a.adjRibIn.Accepted(fams) == 1, "the peer's Adj-RIB-In changed when an API route was deleted")
+	vReach("end")
 }
